@@ -118,6 +118,24 @@ def opApply (args : List String) : String :=
     | _, _ => "bad-op"
   | _ => "bad-op"
 
+/-- apply a matrix function to every matrix of a batch `(..., n, n)` -/
+def batchMats (t : Tens Q) : List Nat × List (Mat Q) :=
+  let fs := t.shape.take (t.shape.length - 2)
+  (fs, (Tens.allIndices fs).map fun pos => Mat.ofTens (t.slice pos))
+
+def opKernel (op : String) (t : Tens Q) : String :=
+  let (fs, ms) := batchMats t
+  let n := t.shape.getLast?.getD 0
+  match op with
+  | "det" => "ok " ++ showTens ⟨fs, (ms.map Mat.det).toArray⟩
+  | "adjugate" => "ok " ++ showTens ⟨fs ++ [n, n], (ms.flatMap fun m => (Mat.adjugate m).flatten).toArray⟩
+  | "inv" =>
+    let is := ms.map Mat.inv
+    if is.any (·.isNone) then "err LinAlg"
+    else "ok " ++ showTens ⟨fs ++ [n, n], (is.flatMap fun m => (m.getD []).flatten).toArray⟩
+  | "rank" => "ok " ++ showTens ⟨fs, (ms.map fun m => (⟨(m.rank : Int), 0⟩ : Q)).toArray⟩
+  | _ => "bad-op"
+
 def dispatch (op : String) (args : List String) : String :=
   match op, args with
   | "diagram", _ => opDiagram args
@@ -172,6 +190,22 @@ def dispatch (op : String) (args : List String) : String :=
   | "frompoints", _ => match args.mapM parseVec with
     | some ps => let k := ps.length / 2; showMatOpt (fromPointsM (ps.take k) (ps.drop k))
     | none => "bad-op"
+  | "det", [t] | "adjugate", [t] | "inv", [t] | "rank", [t] => match parseTens t with
+    | some t => opKernel op t
+    | none => "bad-op"
+  | "hat", [v] => match parseVec v with
+    | some v =>
+      let x := fun k => v.getD k 0
+      let m := if v.length = 3 then hatMatrix3 [1, 2, 0] [2, 0, 1] x
+               else hatMatrixN ((1 + Nat.sqrt (1 + 8 * v.length)) / 2) x
+      "ok " ++ showTens m.toTens
+    | none => "bad-op"
+  | "ismultiple", [a, b] => match parseVec a, parseVec b with
+    | some a, some b => s!"ok {showBools [] [isMultiple a b]}"
+    | _, _ => "bad-op"
+  | "polyfromroots", lead :: rs => match parseQ lead, rs.mapM parseQ with
+    | some l, some rs => "ok " ++ showTens ⟨[rs.length + 1], (polyFromRoots l rs).toArray⟩
+    | _, _ => "bad-op"
   | "eps", [n] => match n.toNat? with
     | some n => s!"ok {showTens (epsTens n : Tens Q)}"
     | none => "bad-op"
